@@ -113,7 +113,13 @@ def local_names(fnode):
             stored.add(n.id)
         if isinstance(n, (ast.Global, ast.Nonlocal)):
             glob.update(n.names)
-    return sorted(stored - params - glob)
+    # a name that is also a parameter of a nested function / lambda cannot be renamed by replacing Name nodes only
+    inner = set()
+    for n in ast.walk(fnode):
+        if n is not fnode and isinstance(n, (ast.FunctionDef, ast.Lambda, ast.AsyncFunctionDef)):
+            a = n.args
+            inner.update(x.arg for x in a.args + a.kwonlyargs + a.posonlyargs)
+    return sorted(stored - params - glob - inner)
 
 
 def apply(tree, fpath, edit):
